@@ -10,7 +10,10 @@ require (
 	storj.io/drpc v0.0.0
 )
 
-require github.com/gogo/protobuf v1.3.2 // indirect
+require (
+	github.com/gogo/protobuf v1.3.2 // indirect
+	github.com/spacemonkeygo/monkit/v3 v3.0.7 // indirect
+)
 
 replace storj.io/drpc => /repo
 
